@@ -152,6 +152,7 @@ pub open spec fn end_k(s: Seq<u8>, p: int, e: int, flags: u8, k: int) -> int
     if p >= e { k }
     else if k >= 8 { end_k(s, p + 1, e, s[p], 0) }
     else if !flag_bit(flags, k) { end_k(s, p + 1, e, flags, k + 1) }
+    else if p + 2 > e { k + 1 }
     else { end_k(s, p + 2, e, flags, k + 1) }
 }
 /// no compressed chunk that is followed by another chunk ends on a full group of 8 tokens
@@ -226,6 +227,31 @@ proof fn lemma_flag_bit(f: u8, k: i32)
     else { assert(((f & (1u8 << 7i32)) == 0) == ((f / 128) % 2 == 0)) by (bit_vector); }
 }
 
+/// one unfolding of dec_chunks / no_full_group_boundary at a chunk boundary i < |s| of a valid container
+proof fn lemma_chunk_unfold(s: Seq<u8>, i: int, out: Seq<u8>)
+    requires dec_chunks(s, i, out) is Some, i < s.len(),
+    ensures
+        i + 2 <= s.len(),
+        hdr_sig(u16_at(s, i)) == 3,
+        i + hdr_size(u16_at(s, i)) + 3 <= s.len(),
+        !hdr_compressed(u16_at(s, i)) ==> hdr_size(u16_at(s, i)) == 4095
+            && dec_chunks(s, i, out) == dec_chunks(s, i + 4098, out + s.subrange(i + 2, i + 4098)),
+        hdr_compressed(u16_at(s, i)) ==> ({
+            let e = i + hdr_size(u16_at(s, i)) + 3;
+            let t = dec_toks(s, i + 2, e, 0, 8, out, out.len() as int);
+            t is Some && t.unwrap().len() - out.len() <= 4096 && dec_chunks(s, i, out) == dec_chunks(s, e, t.unwrap())
+        }),
+        no_full_group_boundary(s, i) ==> ({
+            let e = i + hdr_size(u16_at(s, i)) + 3;
+            no_full_group_boundary(s, e) && (e < s.len() && hdr_compressed(u16_at(s, i)) ==> end_k(s, i + 2, e, 0, 8) != 8)
+        }),
+{
+    let e = i + hdr_size(u16_at(s, i)) + 3;
+    if no_full_group_boundary(s, i) && e >= s.len() {
+        assert(no_full_group_boundary(s, e));
+    }
+}
+
 /// what the validity of the container says about the compressed chunk at cs (ghost constants of one outer iteration)
 pub open spec fn chunk_facts(sq: Seq<u8>, cs: int, e: int, full: Option<Seq<u8>>, tgt: Option<Seq<u8>>, ek: int, base_len: int) -> bool {
     tgt is Some && full == dec_chunks(sq, e, tgt.unwrap()) && cs + 3 <= e <= sq.len() && no_full_group_boundary(sq, e)
@@ -259,7 +285,7 @@ pub open spec fn chunk_facts(sq: Seq<u8>, cs: int, e: int, full: Option<Seq<u8>>
     proof { assert(res@ =~= Seq::<u8>::empty()); }
 //@@ loop 0
         invariant 1 <= i, s@.len() <= isize::MAX, is_p2_table(POWER_2), sq == s@,
-            ok ==> (full == dec_chunks(sq, i as int, res@) && no_full_group_boundary(sq, i as int)),
+            ok ==> (full is Some && full == dec_chunks(sq, i as int, res@) && no_full_group_boundary(sq, i as int)),
         decreases (if i < s@.len() { s@.len() - i } else { 0 }),
 //@@ after /let chunk_flag = [^;]*;/
         let ghost cs = i - 2;
@@ -272,6 +298,10 @@ pub open spec fn chunk_facts(sq: Seq<u8>, cs: int, e: int, full: Option<Seq<u8>>
             assert((chunk_header & 0x7000) >> 12 == (chunk_header / 4096) % 8) by (bit_vector);
             assert((chunk_header & 0x8000) >> 15 == chunk_header / 32768) by (bit_vector);
             if ok {
+                assert(res@ == res_top);
+                assert(full == dec_chunks(sq, cs, res_top));
+                assert(cs < sq.len());
+                lemma_chunk_unfold(sq, cs, res_top);
                 assert(cs + 2 <= sq.len());
                 assert(s@.subrange(cs, s@.len() as int)[0] == sq[cs] && s@.subrange(cs, s@.len() as int)[1] == sq[cs + 1]);
                 assert(chunk_header as int == u16_at(sq, cs));
@@ -290,6 +320,8 @@ pub open spec fn chunk_facts(sq: Seq<u8>, cs: int, e: int, full: Option<Seq<u8>>
         }
 //@@ after /i \+= 4096;/
             proof { if ok { assert(s@.subrange(cs + 2, e) == sq.subrange(cs + 2, e)); } }
+//@@ before /let chunk_header = /
+        let ghost res_top = res@;
 //@@ before /let start = /
         let ghost i_chunk = i;
 //@@ loop 1
